@@ -148,6 +148,7 @@ func (s *channelState) receiveWindow(msg pmpx.ChannelWindow) status.Status {
 	case s.sendWindowWait <- struct{}{}:
 	default:
 	}
+	vtr("win.recv", s.id, int64(delta), 0)
 	return status.OK
 }
 
